@@ -64,7 +64,7 @@ impl Check for C09 {
         }
         let op = &op;
         let case = ops::gen_case(rng, op);
-        let inner = opcheck::Scn { case, fault_seed: rng.u64(), n_plans: 4, only: None };
+        let inner = opcheck::Scn { case, fault_seed: rng.u64(), n_plans: 4, only: None, only_late: Some(vec![]) };
         serde_json::to_value(Scn { inner, real: idx % 12 == 0 }).unwrap()
     }
     fn execute(&self, scn: &Value, st: &mut Stats) -> Verdict {
